@@ -138,6 +138,29 @@ def rule_rm(ctx):
         ctx.holds("C16.RM", f.short, f"{n} criteria combinations: exactly the matching configurations are removed", fi=f)
     # onevent appends a configuration built from its arguments and returns its uuid
     g = bc.find_method("onevent")
+    # ids stay unique over the life of the client, not just among what is registered at one moment: A and B register,
+    # A is removed by its id, C registers, B is removed by its id - C must stay (three staggered waits do exactly this)
+    def run_stagger(it: Interp):
+        c = make_client(p, [], it=it)
+        it.client = c
+        ids = {}
+        for nm in ("A", "B"):
+            ids[nm] = it.run_function(Fn(g, c), [], {"callback": Obj(None, label=f"<fn:{nm}>")})
+        it.run_function(Fn(f, c), [], {"uuid": ids["A"]})
+        ids["C"] = it.run_function(Fn(g, c), [], {"callback": Obj(None, label="<fn:C>")})
+        it.run_function(Fn(f, c), [], {"uuid": ids["B"]})
+        it.left = [show(x.attrs.get("callback")) for x in c.attrs["callbacks"].items if isinstance(x, Obj)]
+        return Const(None)
+
+    try:
+        paths = explore(p, run_stagger, client_opts(p))
+        if len(paths) != 1 or paths[0].outcome != "return":
+            ctx.undecided("C16.RM", g.short + "[staggered]", f"register A, B; remove A; register C; remove B: not decided by constant evaluation ({len(paths)} paths)", fi=g)
+        else:
+            left = paths[0].interp.left
+            ctx.check(left == ["<fn:C>"], "C16.RM", g.short + "[staggered]", "ids are unique over the life of the client", f"register A, B; remove A by its id; register C; remove B by its id: {left} stay registered, expected only C (an id handed out again while its first holder is still registered makes one removal take two registrations)", fi=g, text="stagger", witness="onevent A, onevent B, rmonevent(A), onevent C, rmonevent(B)")
+    except Undecided as u:
+        ctx.undecided("C16.RM", g.short + "[staggered]", str(u), fi=g)
 
     def run2(it: Interp):
         c = make_client(p, [make_callback(p, label="old")], it=it)
